@@ -128,3 +128,127 @@ class Acc:
 
 LIB = {'f': f, 'g': g, 'pick': pick, 'const7': const7, 'bump': bump, 'tagged': tagged,
        'Box': Box, 'Acc': Acc}
+
+
+# ---- callables / arguments that hash by identity ("ident" histories) --------------------
+#
+# cloudpickle ships a lambda, a closure, a local function and a functools.partial BY VALUE:
+# every unpickle creates a new object whose hash is its identity. `Cfg` is an importable
+# class without __eq__/__hash__: its instances are pickled by value, too. One object per
+# (history, name) so that the eager twin and the real expression share the very callable.
+
+_LOCALS = {}
+
+
+def reset_locals():
+  _LOCALS.clear()
+
+
+def use_cfg(cfg=None, *rest, **kwargs):
+  """Stateful: returns its own call number; the config object itself is not returned."""
+  n = tick('use_cfg')
+  cfg = cfg if cfg is not None else kwargs.pop('cfg')
+  return ('use_cfg', cfg.tag, n, rest, tuple(kwargs.items()))
+
+
+class Cfg:
+  """A plain config object (default identity hash and eq)."""
+
+  def __init__(self, tag):
+    self.tag = tag
+
+  def __repr__(self):
+    return f'Cfg({self.tag!r})'
+
+
+def _make_local(name):
+  kind, base = name.split(':', 1)
+  target = LIB[base]
+  if kind == 'lam':
+    fn = lambda *a, **k: target(*a, **k)
+  elif kind == 'clo':
+    def fn(*a, **k):
+      return target(*a, **k)
+  elif kind == 'par':
+    import functools
+    return functools.partial(target)
+  else:
+    raise ValueError(name)
+  fn.__name__ = name      # __qualname__ keeps '<locals>': still pickled by value
+  return fn
+
+
+def callee(name):
+  """The callable behind a 'call' node: importable (LIB) or by-value ('lam:f', 'clo:Acc', ...)."""
+  if name in LIB:
+    return LIB[name]
+  if name not in _LOCALS:
+    _LOCALS[name] = _make_local(name)
+  return _LOCALS[name]
+
+
+LIB['use_cfg'] = use_cfg
+
+
+# ---- callables for the concurrent scenarios (vlib/c17conc.py) --------------------------------
+
+
+def _yield_point():
+  from vlib.sched import core
+  s = core.ACTIVE
+  if s is not None and s.controlled():
+    s.yield_point('user')
+
+
+class SlowAcc(Acc):
+  """An Acc whose construction can be pre-empted (model loading)."""
+
+  def __init__(self, start=0):
+    _yield_point()
+    super().__init__(start)
+    _yield_point()
+
+
+def slow_tagged(x=None, tag='u'):
+  _yield_point()
+  n = tick('slow_tagged')
+  _yield_point()
+  return ('slow_tagged', x, tag, n)
+
+
+class HCfg:
+  """Hashable config argument whose __hash__ is Python code (can be pre-empted)."""
+
+  def __init__(self, n):
+    self.n = n
+
+  def __hash__(self):
+    _yield_point()
+    return hash(('HCfg', self.n))
+
+  def __eq__(self, other):
+    return isinstance(other, HCfg) and other.n == self.n
+
+  def __repr__(self):
+    return f'HCfg({self.n})'
+
+
+def built(cfg, extra=0):
+  tick('built')
+  return ('built', getattr(cfg, 'n', cfg), extra)
+
+
+LIB.update({'SlowAcc': SlowAcc, 'slow_tagged': slow_tagged, 'built': built})
+
+
+def local_name(obj):
+  """Name of a by-value callable created for this history (by identity), else None."""
+  import functools
+  for k, v in _LOCALS.items():
+    if v is obj:
+      return k
+    # an unpickled copy of a partial has no __name__: recognise it by what it wraps
+    if isinstance(obj, functools.partial) and isinstance(v, functools.partial) and \
+       (obj.func, obj.args, obj.keywords) == (v.func, v.args, v.keywords):
+      return k
+  return None
